@@ -8,3 +8,4 @@ import Props.C11
 #print axioms C11.pack_groups_only_equal
 #print axioms C11.eor_kept
 #print axioms C11.eor_last
+#print axioms C11.dedup_key_matches_wire
